@@ -26,6 +26,8 @@ type GenCfg struct {
 	Sub        bool // create the nested directory d0/sub
 	Symlinks   bool // create symlinks ld0 -> d0, lf -> d0/<name>
 	MaxAdds    int
+	PPause     int // percent of burst operations followed by a consumer pause of 120-300 ms (delayed consumer)
+	POps       int // percent of Adds that request a subset of the operations
 	PMacro     int // percent of operations replaced by a multi-step lifecycle macro on a watched file (re-point, alias swap, ...)
 	PRemoveNow int // percent of plugged bursts that contain a Remove of a watched dir followed by ops under fresh names
 	Others     int // up to this many other Watchers with random activity (C14)
@@ -323,6 +325,9 @@ func (g *Gen) Case() *Case {
 					}
 				}
 				g.fsStep()
+				if g.pct("pause", g.cfg.PPause) {
+					g.steps = append(g.steps, Step{K: KPause, N: rapid.SampledFrom([]int{120, 180, 300}).Draw(t, "pausems")})
+				}
 				if !plug && g.pct("poll", 15) {
 					g.steps = append(g.steps, Step{K: KPoll, N: rapid.IntRange(1, 5).Draw(t, "polln")})
 				}
@@ -388,7 +393,39 @@ func (g *Gen) macro() {
 		add(f)
 	}
 	g.nops += 4
-	switch rapid.IntRange(0, 6).Draw(t, "macro-kind") {
+	nk := 8
+	if g.cfg.POps > 0 {
+		nk = 9 // operation-subset re-adds only where the check quantifies over requested operation sets
+	}
+	switch rapid.IntRange(0, nk).Draw(t, "macro-kind") {
+	case 9: // the same path added several times with different operation sets, then moved / removed
+		for i, n := 0, rapid.IntRange(2, 3).Draw(t, "macro-nadds"); i < n; i++ {
+			em(Step{K: KAdd, P: P(g.spell(f, false)), N: rapid.SampledFrom([]int{0, 2, 16, 1, 4, 8, 31, 18}).Draw(t, "macro-ops")})
+		}
+		em(Step{K: KWrite, P: P(f), N: 1}, Step{K: KChmod, P: P(f), N: 0o600})
+		if g.pct("macro-mv", 50) {
+			em(Step{K: KRename, P: P(f), Q: keep}, Step{K: KWrite, P: keep, N: 1})
+		} else {
+			em(Step{K: KUnlink, P: P(f)})
+		}
+		g.sync()
+		g.steps = append(g.steps, Step{K: KList})
+		if g.cfg.Fdchk {
+			g.steps = append(g.steps, Step{K: KFdchk})
+		}
+		return
+	case 7, 8: // deleted, recreated and re-added while the old file's events are still being delivered
+		add(f)
+		g.sync()
+		if g.pct("macro-plug", 30) {
+			em(Step{K: KPlug})
+		}
+		em(Step{K: KUnlink, P: P(f)}, Step{K: KRecv, N: rapid.IntRange(0, 3).Draw(t, "macro-recv")}, Step{K: KCreate, P: P(f)},
+			Step{K: KAddNow, P: P(g.spell(f, false))}, Step{K: KWrite, P: P(f), N: 1})
+		g.added = append(g.added, f)
+		g.sync()
+		g.steps = append(g.steps, Step{K: KList})
+		return
 	case 0: // new inode under a listed path, old inode alive through a hard link
 		add(f)
 		em(Step{K: KLink, P: P(f), Q: keep}, Step{K: KUnlink, P: P(f)}, Step{K: KCreate, P: P(f)})
@@ -515,7 +552,11 @@ func (g *Gen) apiStep(prologue bool) {
 			cands = []string{"d0"}
 		}
 		p := g.pick("addpath", cands)
-		g.steps = append(g.steps, Step{K: KAdd, P: P(g.spell(p, false))})
+		st := Step{K: KAdd, P: P(g.spell(p, false))}
+		if g.pct("addops", g.cfg.POps) {
+			st.N = rapid.IntRange(1, 31).Draw(t, "ops")
+		}
+		g.steps = append(g.steps, st)
 		if _, ok := g.fs.kind[p]; ok {
 			g.added = append(g.added, p)
 		}
